@@ -105,6 +105,10 @@ def oracle(run, corr, deep, seqs):
         for _ in range(3):
             reqs.append("%s %s %s" % (verb, s[0], ",".join(str(rng.randint(0, 1)) for _ in range(NEED[verb]))))
     for _ in range(run.scale(600, 8000) * (3 if deep else 1)):
+        if rng.random() < 0.12:
+            # the constant bursts again, after whatever the ONE generator object produced before
+            reqs.append(rng.choice(["rb.fb", "rb.db"]))
+            continue
         verb = rng.choice(list(NEED))
         draws = [rng.randint(0, 1) for _ in range(NEED[verb] + 1)]
         draws[{"rb.nb": 58, "rb.sb": 39, "rb.ab": 0}[verb]] = rng.randint(0, 50)
